@@ -256,6 +256,61 @@ def check(prog, run):
                            "%s.%s is a mutable container created in the class body and written by the handlers: every %s instance in "
                            "the process shares it" % (c.name, an, c.name))
 
+    # ---- U1 kinds of declared input types are tested after unwrapping
+    ru = run.rule("U1", "in TypeInfoVisitor and ValuesOfCorrectTypeChecker, an expected input type read from the input-type stack "
+                        "(`_peek(self._input_type_stack, k)`, `self.input_type`, `self.type_info.input_type`, `...parent_input_type` is "
+                        "built from it) is a DECLARED type and may be wrapped in NonNull/List: a test of its kind against a named "
+                        "kind (InputObjectType, EnumType, ScalarType) is made on unwrap_type(...) of it (flow-sensitive within the "
+                        "function: the last binding before the test counts) — otherwise `In!` and `[In]` positions are treated as "
+                        "`not an input object` and their unknown fields / bad members are never reported", 5)
+    NAMED_IN = {"ScalarType", "EnumType", "InputObjectType"}
+    tiv = prog.get_class("py_gql.validation.visitors", "TypeInfoVisitor")
+    ucls = [tiv] + ([rcs["ValuesOfCorrectTypeChecker"]] if "ValuesOfCorrectTypeChecker" in rcs else [])
+
+    def _is_stack_read(e):
+        t = ast.unparse(e)
+        if isinstance(e, ast.Call) and isinstance(e.func, ast.Name) and e.func.id == "_peek" and "_input_type_stack" in t:
+            return True
+        if isinstance(e, ast.Subscript) and "_input_type_stack" in ast.unparse(e.value):
+            return True
+        return isinstance(e, ast.Attribute) and e.attr == "input_type" and t in ("self.input_type", "self.type_info.input_type")
+    for c in ucls:
+        for mname, m in c.methods.items():
+            for n in own_nodes(m.node):
+                if not (isinstance(n, ast.Call) and isinstance(n.func, ast.Name) and n.func.id == "isinstance" and len(n.args) == 2):
+                    continue
+                ks = {x.id for x in ast.walk(n.args[1]) if isinstance(x, ast.Name)}
+                if not (ks & NAMED_IN) or (ks & {"ListType", "NonNullType", "WrappingType"}):
+                    continue
+                e = n.args[0]
+                hops = 0
+                while isinstance(e, ast.Name) and hops < 4:
+                    # the last simple binding of that name located before the test (source order)
+                    binds = [x for x in own_nodes(m.node) if isinstance(x, ast.Assign) and len(x.targets) == 1 and isinstance(x.targets[0], ast.Name)
+                             and x.targets[0].id == e.id and (x.lineno, x.col_offset) < (n.lineno, n.col_offset)]
+                    if not binds:
+                        break
+                    e = max(binds, key=lambda x: (x.lineno, x.col_offset)).value
+                    if isinstance(e, ast.IfExp):
+                        e = e.body if not (isinstance(e.body, ast.Constant) and e.body.value is None) else e.orelse
+                    hops += 1
+                sanitized = isinstance(e, ast.Call) and isinstance(e.func, ast.Name) and e.func.id in ("unwrap_type",)
+                src = _is_stack_read(e)
+                ru.instance("%s.%s: `%s` tests %s" % (c.name, mname, " ".join(ast.unparse(n).split())[:60], "an unwrapped type" if sanitized else ("a raw stack entry" if src else "another value")))
+                if src and not sanitized:
+                    run.report(ru, "%s:%s.%s:kind-test-on-wrapped-type(%s)" % (c.module.name, c.name, mname, "|".join(sorted(ks & NAMED_IN))), m.where(n),
+                               "`%s` tests a declared input type taken from the input-type stack without unwrapping it: for `T!` or `[T]` "
+                               "the test is false and the position is treated as not being of that kind" % " ".join(ast.unparse(n).split())[:80])
+
+    # ---- K1 no lossy skip sets in validation loops
+    from .. import loopskip
+    loopskip.check(prog, run, "K1", ["py_gql.validation"], 20,
+                   "e.g. only the first usage of a variable is type-checked, so an incompatible later usage passes validation")
+
+    # ---- S2 two-sided comparisons keep their sides apart
+    from .. import sides
+    sides.check(prog, run, "S2", ["py_gql.validation", "py_gql.schema.schema"], 4)
+
     # ---- R4 per-usage records
     r = run.rule("R4", "variable usages checked by VariablesInAllowedPositionChecker come from a container that records every "
                        "usage (appended per occurrence), not from a mapping keyed by the variable name alone", 1)
